@@ -32,7 +32,7 @@ def prog_strategy():
 
     step = st.one_of(
         st.tuples(st.sampled_from(["conv", "laxconv"]), st.integers(0, 3), st.sampled_from([1, 3])).map(list),
-        st.tuples(st.sampled_from(["relu", "tanh", "avgpool", "maxpool", "add_x2", "scale_bias", "t_internal", "mul_vec"])).map(list),
+        st.tuples(st.sampled_from(["relu", "tanh", "avgpool", "maxpool", "add_x2", "scale_bias", "t_internal", "mul_vec", "bcast_like", "ones_like_cat"])).map(list),
     )
     out = st.sampled_from(["h", "h", "x", "mean_hw", "mean_c", "h2", "sum_all", "h_dup"])
     return st.fixed_dictionaries({
@@ -41,6 +41,7 @@ def prog_strategy():
         "two": st.booleans(),
         "vec": st.booleans(),
         "sym": st.booleans(),
+        "symhw": st.booleans(),
         "hw": st.sampled_from([4, 5, 6]),
         "c": st.sampled_from([2, 3]),
     })
@@ -92,6 +93,10 @@ def make_fn(pg):
                 h = jnp.transpose(jnp.tanh(jnp.transpose(h, (0, 3, 1, 2))), (0, 2, 3, 1))
             elif t == "mul_vec":
                 h = h * vec
+            elif t == "bcast_like":  # reads the runtime extents of the image
+                h = h + jnp.broadcast_to(jnp.mean(h, axis=(1, 2), keepdims=True), h.shape) * 0.5
+            elif t == "ones_like_cat":
+                h = jnp.concatenate([h, jnp.ones_like(h)], axis=3)[..., : h.shape[3]] + h * 0.0
         outs = []
         for o in pg["outs"]:
             if o == "h":
@@ -115,9 +120,10 @@ def make_fn(pg):
 
 def io_desc(pg):
     b = "B" if pg["sym"] else 2
-    ins = [(b, pg["hw"], pg["hw"], pg["c"])]
+    hh, ww = ("H", "W") if pg.get("symhw") else (pg["hw"], pg["hw"])
+    ins = [(b, hh, ww, pg["c"])]
     if pg["two"]:
-        ins.append((b, pg["hw"], pg["hw"], pg["c"]))
+        ins.append((b, hh, ww, pg["c"]))
     if pg["vec"]:
         ins.append((pg["c"],))
     out_rank = {"h": 4, "h_dup": 4, "x": 4, "h2": 4, "mean_hw": 2, "mean_c": 3, "sum_all": 0}
@@ -157,7 +163,8 @@ def check_prog(pg, subsets, feed_seed, acc=None, invalid=True):
         return out
     rng = np.random.default_rng(feed_seed)
     bind = 3 if pg["sym"] else 2
-    feeds = [(rng.standard_normal(tuple(bind if d == "B" else d for d in s)) * 1.5).astype(np.float32) for s in ins]
+    bmap = {"B": bind, "H": pg["hw"], "W": pg["hw"] + 1}
+    feeds = [(rng.standard_normal(tuple(bmap.get(d, d) for d in s)) * 1.5).astype(np.float32) for s in ins]
     ref = jaxutil.flatten(fn(*[jnp.asarray(f) for f in feeds]))
     base = ps.run(None, {i.name: f for i, f in zip(ps.get_inputs(), feeds)})
     if not all(_close(g, r) for g, r in zip(base, ref)):
